@@ -237,8 +237,9 @@ int main(int argc, char** argv)
       for(size_t j = 0; j < docs.size() && docs[j]->ntok <= len2; ++j)
       {
         if((n++ & 0xfff) == 0) { vf::watchdog_arm(20000); vf::crumb("json.reuse", sh.token(), "reuse first='" + vf::show(docs[i]->text) + "' second='" + vf::show(docs[j]->text) + "'"); }
-        Json::Parser p; Variant v1, v2;
-        p.parse((const char*)docs[i]->e->p, v1);
+        // the result variable is reused as well: the second parse must replace whatever the first one left in it
+        Json::Parser p; Variant v2;
+        p.parse((const char*)docs[i]->e->p, v2);
         bool ok = p.parse((const char*)docs[j]->e->p, v2);
         vf::hit("reuse_pairs"); vf::hit("parse_inputs"); vf::hit("distinct_nontrivial");
         const Doc& d = *docs[j];
